@@ -277,6 +277,9 @@ pub fn running_reply_raw(message_id: &str, stmts: &[Stmt]) -> String {
 pub const NAME_POOL: &[&str] = &[
     "fltr-a", "fltr-b", "fltr-c", "FLTR-A", "fltr-a2", "AS65000:AS-CUST", "with space", "a&b",
     "x<y>z", "q\"uo'te", "naïve-ü", "日本", "]]>", "a&amp;b", "-", "fltr.d_e",
+    // white space is part of a name: " lead" and "lead" are different policies, and what the
+    // agent reads in the running configuration must match what it reads back as installed
+    " lead", "trail ", "\n  padded\n",
 ];
 
 pub fn name_strategy() -> impl Strategy<Value = String> {
